@@ -386,6 +386,15 @@ fn val_tokens(v: &HVal, out: &mut Vec<String>) {
     }
 }
 
+/// does the array value / column store at least one byte per element
+fn stores_data(v: &HVal) -> bool {
+    match v {
+        HVal::Absent => false,
+        HVal::Structs(_, cols) => cols.iter().any(stores_data),
+        _ => true,
+    }
+}
+
 fn int_edge(rng: &mut Rng) -> i64 {
     let m: i64 = match rng.below(16) {
         0 => 0,
@@ -633,7 +642,13 @@ impl HGen<'_> {
             }
             9 => {
                 let t = self.logical_type(cls).expect("struct class");
-                HVal::Structs(n, self.columns(t, n, &[], depth + 1))
+                let cols = self.columns(t, n, &[], depth + 1);
+                // an object-level STRUCT array whose elements store nothing can have more elements than
+                // bytes follow (recorded finding havok-array-length-guard): rare on purpose
+                if depth == 0 && n >= 1 && !cols.iter().any(stores_data) && !self.rng.chance(1, 30) {
+                    return HVal::Structs(0, self.columns(t, 0, &[], depth + 1));
+                }
+                HVal::Structs(n, cols)
             }
             _ => HVal::Absent,
         }
